@@ -22,7 +22,7 @@ from collections.abc import Coroutine
 from Cryptodome.PublicKey import ECC, RSA
 from ...encoding import FormalName, BinaryStr, SignatureType, Name, parse_data, SignaturePtrs
 from ...app import NDNApp, Validator, ValidationFailure, InterestTimeout, InterestNack
-from .known_key_validator import verify_rsa, verify_hmac, verify_ecdsa
+from .known_key_validator import verify_rsa, verify_hmac, verify_ecdsa, verify_ed25519
 
 
 class PublicKeyStorage(abc.ABC):
@@ -73,6 +73,9 @@ class CascadeChecker:
         elif sig_ptrs.signature_info.signature_type == SignatureType.SHA256_WITH_ECDSA:
             pub_key = ECC.import_key(bytes(pub_key_bits))
             return verify_ecdsa(pub_key, sig_ptrs)
+        elif sig_ptrs.signature_info.signature_type == SignatureType.ED25519:
+            pub_key = ECC.import_key(bytes(pub_key_bits))
+            return verify_ed25519(pub_key, sig_ptrs)
         else:
             return False
 
